@@ -1,5 +1,342 @@
-use crate::common::Ctx;
-pub fn run(_ctx: &Ctx, _replay: Option<&serde_json::Value>) -> i32 {
-    eprintln!("not implemented");
-    2
+//! C04 — closures capture definition-time values; calls are call-site independent; arity.
+//!
+//! State exploration over sessions: definitions (captured values from a pool) followed by the same
+//! call placed in every context of a context grammar; plus the full table of parameter-list shapes
+//! x argument counts against a 10-line reference model of positional binding.
+
+use crate::common::*;
+use serde_json::{Value as J, json};
+
+/// (name, definition lines after `a`/`b` are bound, how many arguments f takes)
+fn closures() -> Vec<(&'static str, Vec<&'static str>, usize)> {
+    vec![
+        ("plain", vec!["f = x => [a, b, x]"], 1),
+        ("arith", vec!["f = x => a + x"], 1),
+        ("shorthand", vec!["f = x => {a, k: b, x}"], 1),
+        ("curried", vec!["g = x => y => [a, x, y, b]", "f = g(7)"], 1),
+        ("nested-lambda", vec!["f = x => ((z) => [a, z, x])(b)"], 1),
+        ("defined-in-do", vec!["f = do {\n  a2 = a\n  return x => [a2, b, x]\n}"], 1),
+        ("do-shadowing-capture", vec!["f = do {\n  a = [a, \"inner\"]\n  return x => [a, x]\n}"], 1),
+        ("captures-closure", vec!["g = y => [a, y]", "f = x => [g(x), b]"], 1),
+        ("captures-closure-chain", vec!["g = y => [a, y]", "h = z => g([z, b])", "f = x => h(x)"], 1),
+        ("self-recursive", vec!["f = x => if typeof(x) == \"number\" and x > 0 then f(x - 1) else [a, x]"], 1),
+        ("body-do-local-named-a", vec!["f = x => do {\n  t = a\n  a = x\n  return [t, a, b]\n}"], 1),
+        ("inner-param-named-a", vec!["f = x => [a, ((a) => [a, b])(x)]"], 1),
+        ("conditional", vec!["f = x => if x == null then a else b"], 1),
+        ("uses-inputs", vec!["f = x => [#k, inputs.k, a, x]"], 1),
+        ("via-inside", vec!["f = x => ([x, x] via (e => [a, e]))"], 1),
+        ("two-args", vec!["f = (x, y) => [a, x, y, b]"], 2),
+        ("two-args-fold", vec!["f = (acc, x) => [acc, a, x]"], 2),
+        ("predicate", vec!["f = x => x == a"], 1),
+        ("captured-list-ops", vec!["l = [a, b]", "f = x => concat(l, [x])"], 1),
+        ("data-capture-record", vec!["r = {v: a}", "f = x => [r.v, x]"], 1),
+    ]
+}
+
+const AB_POOL: [(&str, &str); 4] = [("1", "2"), ("\"s\"", "[1, 2]"), ("null", "{k: 1}"), ("[0]", "true")];
+const ARGS: [&str; 6] = ["2", "\"t\"", "[1]", "null", "true", "{k: 1}"];
+
+/// Contexts: (name, program with {CALL} placeholder, how the top-level value is wrapped)
+fn contexts(nargs: usize) -> Vec<(&'static str, String, &'static str)> {
+    let mut v: Vec<(&'static str, String, &'static str)> = vec![
+        ("top", "{CALL}".into(), "{V}"),
+        ("param-a", "((a) => {CALL})(\"junk\")".into(), "{V}"),
+        ("params-a-b", "((a, b) => {CALL})(\"junk\", \"junk2\")".into(), "{V}"),
+        ("optional-param-a", "((a?) => {CALL})()".into(), "{V}"),
+        ("rest-param-a", "((...a) => {CALL})(1, 2)".into(), "{V}"),
+        ("do-local-a", "do {\n  a = \"junk\"\n  return {CALL}\n}".into(), "{V}"),
+        ("nested-do", "do {\n  a = \"junk\"\n  return do {\n    b = \"junk2\"\n    return {CALL}\n  }\n}".into(), "{V}"),
+        ("do-local-f-args", "do {\n  x = \"junk\"\n  l = \"junk\"\n  g = \"junk\"\n  return {CALL}\n}".into(), "{V}"),
+        ("via-callback", "[\"junk\"] via (a => {CALL})".into(), "[{V}]"),
+        ("map-callback", "map([\"junk\", \"junk2\"], (a, b) => {CALL})".into(), "[{V}, {V}]"),
+        ("into-callback", "\"junk\" into (a => {CALL})".into(), "{V}"),
+        ("reduce-callback", "reduce([\"junk\"], (a, b) => {CALL}, 0)".into(), "{V}"),
+        ("where-callback", "len([1, 2] where (a => ({CALL}) .== ({CALL})))".into(), "2"),
+        ("closure-other-a", "(((a) => (() => {CALL}))(\"other\"))()".into(), "{V}"),
+        ("record-value", "{a: \"junk\", v: {CALL}}.v".into(), "{V}"),
+        ("list-item", "[a, {CALL}][1]".into(), "{V}"),
+        ("conditional-branch", "if true then {CALL} else a".into(), "{V}"),
+    ];
+    if nargs == 1 {
+        v.extend([
+            ("f-as-via-callback", "[{A0}] via f".to_string(), "[{V}]"),
+            ("f-as-map-callback", "map([{A0}], f)".to_string(), "[{V}]"),
+            ("f-as-into", "{A0} into f".to_string(), "{V}"),
+            ("f-as-via-scalar", "({A0}) via f".to_string(), "{VIA_SCALAR}"),
+        ]);
+    } else {
+        v.extend([("f-as-reduce", "reduce([{A1}], f, {A0})".to_string(), "{V}")]);
+    }
+    v
+}
+
+struct Clo {
+    name: String,
+    defs: Vec<String>,
+    nargs: usize,
+}
+
+fn all_closures(thorough: bool) -> Vec<Clo> {
+    use crate::tgen::*;
+    let mut v: Vec<Clo> = closures().into_iter().map(|(n, d, k)| Clo { name: n.to_string(), defs: d.iter().map(|s| s.to_string()).collect(), nargs: k }).collect();
+    // generated bodies: every kind alone and every parent x child kind in every slot, over the
+    // leaves x (parameter), a, b (captured) and literals
+    let mut stats = GenStats::default();
+    let kinds = if thorough { all_kinds() } else { representative_kinds() };
+    let mut trees = single_slot(&kinds, &kinds, &mut stats);
+    for k in all_kinds() {
+        if k.is_expr {
+            let mut s = LeafSupply::new();
+            trees.push(with_leaves(&k, &mut s));
+        }
+    }
+    let mut seen = std::collections::HashSet::new();
+    for t in trees {
+        let body = rename(&t).full();
+        if seen.insert(body.clone()) {
+            v.push(Clo { name: format!("generated:{}", crate::c07::shape_class(&t)), defs: vec![format!("f = (x) => {}", body)], nargs: 1 });
+        }
+    }
+    v
+}
+
+/// Map the generator's positional leaf names to x / a / b / literals.
+fn rename(t: &crate::tgen::T) -> crate::tgen::T {
+    use crate::tgen::*;
+    let m = |n: &str| -> T {
+        match n {
+            "a" | "e" | "i" => T::id("x"),
+            "b" | "f" | "j" => T::id("a"),
+            "c" | "g" | "m" => T::id("b"),
+            "d" => T::num(1.0),
+            "h" => T::str("s"),
+            _ => T::id("x"),
+        }
+    };
+    fn go(t: &T, m: &dyn Fn(&str) -> T) -> T {
+        let b = |x: &T| Box::new(go(x, m));
+        match t {
+            T::Id(n) => m(n),
+            T::Num(_) | T::Str(_) | T::Bool(_) | T::Null | T::Inp(_) => t.clone(),
+            T::List(v) => T::List(v.iter().map(|x| go(x, m)).collect()),
+            T::Rec(es) => T::Rec(
+                es.iter()
+                    .map(|e| match e {
+                        RE::Kv(k, v) => RE::Kv(k.clone(), go(v, m)),
+                        RE::Qkv(k, v) => RE::Qkv(k.clone(), go(v, m)),
+                        RE::Dyn(k, v) => RE::Dyn(go(k, m), go(v, m)),
+                        RE::Short(_) => RE::Short("a".into()),
+                        RE::Spread(v) => RE::Spread(go(v, m)),
+                    })
+                    .collect(),
+            ),
+            T::Lam(a, body) => T::Lam(a.clone(), b(body)),
+            T::Cond(x, y, z) => T::Cond(b(x), b(y), b(z)),
+            T::Do(s, r) => T::Do(s.iter().map(|x| go(x, m)).collect(), b(r)),
+            T::Assign(n, v) => T::Assign(n.clone(), b(v)),
+            T::Call(f, a) => T::Call(b(f), a.iter().map(|x| go(x, m)).collect()),
+            T::Index(x, y) => T::Index(b(x), b(y)),
+            T::Field(x, f) => T::Field(b(x), f.clone()),
+            T::Bin(op, x, y) => T::Bin(*op, b(x), b(y)),
+            T::Neg(x) => T::Neg(b(x)),
+            T::Bang(x) => T::Bang(b(x)),
+            T::NotW(x) => T::NotW(b(x)),
+            T::Fact(x) => T::Fact(b(x)),
+            T::Spread(x) => T::Spread(b(x)),
+            T::Output(x) => T::Output(b(x)),
+        }
+    }
+    go(t, &m)
+}
+
+fn check_closure(ctx: &Ctx, clo: &Clo, ab: usize) {
+    let (cname, defs, nargs) = (&clo.name, &clo.defs, &clo.nargs);
+    let (va, vb) = AB_POOL[ab];
+    let mut s = Session::with_inputs(&[("k", json!("input-k"))]);
+    let mut lines = vec![format!("a = {}", va), format!("b = {}", vb)];
+    lines.extend(defs.iter().map(|d| d.to_string()));
+    for l in &lines {
+        let o = s.run(l);
+        if !o.is_ok() {
+            ctx.machinery_error(format!("closure {} definition line {:?} failed: {:?}", cname, l, o));
+            return;
+        }
+    }
+    for a0 in ARGS {
+        for a1 in ARGS.iter().take(if *nargs == 2 { 3 } else { 1 }) {
+            let call = if *nargs == 1 { format!("f({})", a0) } else { format!("f({}, {})", a0, a1) };
+            let top = s.run(&call);
+            ctx.count(1);
+            ctx.outcome(if top.is_ok() { "top-ok" } else { "top-fail" });
+            // (between contexts) a refused redefinition must change nothing
+            let _ = s.run("a = 99");
+            let _ = s.run("f = 1");
+            for (xname, template, wrap) in contexts(*nargs) {
+                let prog = template.replace("{CALL}", &call).replace("{A0}", a0).replace("{A1}", a1);
+                let got = s.run(&prog);
+                ctx.count(1);
+                ctx.nontrivial(&format!("{}|{}|{}|{}", cname, ab, xname, call));
+                // expected: the top-level outcome, wrapped
+                let expected = match &top {
+                    Outcome::Ok(v) => {
+                        if wrap == "{VIA_SCALAR}" {
+                            // `x via f` with a list x maps f over the elements instead
+                            if a0.starts_with('[') { None } else { Some(Outcome::Ok(v.clone())) }
+                        } else if wrap == "2" {
+                            // the where-callback context compares f's result with itself by `.==`;
+                            // a NaN inside the value is not equal to itself
+                            if v.contains("NaN") { None } else { Some(Outcome::Ok(num_repr(2.0))) }
+                        } else {
+                            Some(Outcome::Ok(wrap.replace("{V}", v)))
+                        }
+                    }
+                    other => {
+                        if wrap == "{VIA_SCALAR}" && a0.starts_with('[') {
+                            None
+                        } else {
+                            Some(other.clone())
+                        }
+                    }
+                };
+                let Some(expected) = expected else { continue };
+                // NaN-free pool: `.==` comparison in the where-callback context is exact
+                if got.cmp_key() != expected.cmp_key() {
+                    ctx.violation(Violation {
+                        kind: "call-site-dependent".into(),
+                        class: format!("{}|{}", cname, xname),
+                        input: format!("{} ;; {}", lines.join(" ; "), prog),
+                        expected: format!("{} (value of `{}` at top level right after definition)", expected.cmp_key(), call),
+                        observed: format!("{} {}", got.cmp_key(), if let Outcome::EvalError(m) = &got { m.as_str() } else { "" }),
+                        case: json!({"lines": lines, "program": prog, "call": call}),
+                    });
+                }
+            }
+        }
+    }
+}
+
+// ---------------------------------------------------------------------------------------------
+// arity
+
+fn arity_checks(ctx: &Ctx) {
+    for r in 0..=3usize {
+        for o in 0..=2usize {
+            for rest in 0..=1usize {
+                let mut params: Vec<String> = vec![];
+                let mut names: Vec<String> = vec![];
+                for i in 0..r {
+                    params.push(format!("r{}", i));
+                    names.push(format!("r{}", i));
+                }
+                for i in 0..o {
+                    params.push(format!("o{}?", i));
+                    names.push(format!("o{}", i));
+                }
+                if rest == 1 {
+                    params.push("...rs".into());
+                    names.push("rs".into());
+                }
+                let def = format!("p = ({}) => [{}]", params.join(", "), names.join(", "));
+                let n = r + o;
+                for count in 0..=(n + 3) {
+                    let vals: Vec<String> = (0..count).map(|i| format!("{}", 10 + i)).collect();
+                    // reference model
+                    let expected: Option<String> = if count < r || (rest == 0 && count > n) {
+                        None
+                    } else {
+                        let mut items: Vec<String> = vec![];
+                        for i in 0..r {
+                            items.push(num_repr((10 + i) as f64));
+                        }
+                        for i in 0..o {
+                            items.push(if r + i < count { num_repr((10 + r + i) as f64) } else { "null".into() });
+                        }
+                        if rest == 1 {
+                            let restv: Vec<String> = (n..count.max(n)).map(|i| num_repr((10 + i) as f64)).collect();
+                            items.push(format!("[{}]", restv.join(", ")));
+                        }
+                        Some(format!("[{}]", items.join(", ")))
+                    };
+                    let forms = [
+                        ("plain", format!("p({})", vals.join(", "))),
+                        ("spread", format!("p(...[{}])", vals.join(", "))),
+                        ("mixed-spread", if count >= 1 { format!("p({}, ...[{}])", vals[0], vals[1..].join(", ")) } else { "p(...[])".into() }),
+                        ("into", if count == 1 { format!("{} into p", vals[0]) } else { String::new() }),
+                    ];
+                    for (fname, prog) in forms {
+                        if prog.is_empty() {
+                            continue;
+                        }
+                        let mut s = Session::new();
+                        if !s.run(&def).is_ok() {
+                            ctx.machinery_error(format!("definition failed: {}", def));
+                            return;
+                        }
+                        let got = s.run(&prog);
+                        ctx.count(1);
+                        ctx.nontrivial(&format!("{}|{}", def, prog));
+                        ctx.outcome(if expected.is_some() { "arity-accept" } else { "arity-reject" });
+                        let ok = match (&expected, &got) {
+                            (Some(e), Outcome::Ok(g)) => e == g,
+                            (None, Outcome::EvalError(_)) => true,
+                            _ => false,
+                        };
+                        if !ok {
+                            ctx.violation(Violation {
+                                kind: "arity".into(),
+                                class: format!("r{}o{}rest{}|{}", r, o, rest, fname),
+                                input: format!("{} ;; {}", def, prog),
+                                expected: expected.clone().unwrap_or("an arity error".into()),
+                                observed: format!("{:?}", got),
+                                case: json!({"lines": [def], "program": prog, "call": prog}),
+                            });
+                        }
+                    }
+                }
+            }
+        }
+    }
+}
+
+pub fn run(ctx: &Ctx, replay: Option<&J>) -> i32 {
+    if let Some(r) = replay {
+        let mut s = Session::with_inputs(&[("k", json!("input-k"))]);
+        for l in r["case"]["lines"].as_array().cloned().unwrap_or_default() {
+            println!("{} -> {}", l.as_str().unwrap_or(""), s.run(l.as_str().unwrap_or("")).status());
+        }
+        let call = r["case"]["call"].as_str().unwrap_or("");
+        let prog = r["case"]["program"].as_str().unwrap_or("");
+        let top = s.run(call);
+        let got = s.run(prog);
+        println!("top-level `{}` -> {:?}\nin context `{}` -> {:?}\nrecorded expectation: {}", call, top, prog, got, r["expected"]);
+        return 1;
+    }
+    let clos = all_closures(!ctx.quick());
+    let n = clos.len();
+    // hand-written closures under every definition-value pair; generated ones under a rotating pair
+    let jobs: Vec<(usize, usize)> = (0..n)
+        .flat_map(|c| (0..AB_POOL.len()).map(move |ab| (c, ab)))
+        .filter(|(c, ab)| *c < closures().len() || (!ctx.quick() && ab % 2 == c % 2) || *ab == c % AB_POOL.len())
+        .collect();
+    par_for_ctx(ctx, jobs.len(), |i| check_closure(ctx, &clos[jobs[i].0], jobs[i].1));
+    ctx.set("closure_definitions", json!(n));
+    arity_checks(ctx);
+    let states = jobs.len() as u64 * 3; // sessions: (definitions) x (after each refused redefinition)
+    ctx.set("closures", json!(closures().iter().map(|c| c.0).collect::<Vec<_>>()));
+    ctx.set("contexts", json!(contexts(1).iter().map(|c| c.0).chain(contexts(2).iter().skip(17).map(|c| c.0)).collect::<Vec<_>>()));
+    ctx.set("definition_value_pool", json!(AB_POOL));
+    ctx.sample(json!({"definitions": ["a = 1", "b = 2", "g = y => [a, y]", "f = x => [g(x), b]"], "call": "f(2)", "context": "do {\n  a = \"junk\"\n  return f(2)\n}"}));
+    ctx.sample(json!({"arity": "p = (r0, o0?, ...rs) => [r0, o0, rs]", "call": "p(...[10, 11, 12])"}));
+    ctx.require_outcome("top-ok", 200);
+    ctx.require_outcome("top-fail", 5);
+    ctx.require_outcome("arity-accept", 100);
+    ctx.require_outcome("arity-reject", 100);
+    let evals = ctx.evaluations.load(std::sync::atomic::Ordering::Relaxed) as u64;
+    finish(
+        ctx,
+        "model_checking",
+        "sessions = (definition-time values of a, b from a 4-pair pool) x 20 closure definitions (plain, curried, nested, defined in do-blocks, capturing closures and chains, self-recursive, shadowing locals / inner parameters, inputs, data captures); transitions = the same call f(args) (6-value argument pool) placed in 21 calling contexts (shadowing parameter / optional / rest parameter, do-locals, nested do, callbacks of via/map/into/reduce/where, f itself as callback, closure created under another a, record / list / conditional positions) after refused redefinitions of a and f; oracle = value at top level right after definition; arity: all 24 documented parameter-list shapes x argument counts 0..n+3 x plain / spread / mixed / into passing against a reference model; distinct = (closure, values, context, call) tuples",
+        true,
+        Some((states, evals, evals)),
+    )
 }
